@@ -1,12 +1,12 @@
 import NeumannModel.RaftWal.Lemmas
 /-
-  C10, histories in which the WAL rejects appends for a while (`ActF`, `stepFail`).
+  C10, histories in which the WAL rejects appends for a while (`ActF`, `stepFailOld`).
 
   Part A: term and vote.  The invariant is about `current_term` / `voted_for` only — it does not
           need memory and WAL to agree on the LOG, which the code as it is does not guarantee once an
           append has failed inside `append_leader_entries`.
   Part B: one vote per term in such histories.
-  Part C: with `append_leader_entries` repaired (`stepFailFixed`) the full invariant `Inv` of
+  Part C: with `append_leader_entries` repaired (`stepFail`) the full invariant `Inv` of
           Lemmas.lean is preserved, so all three obligations hold.
 -/
 namespace Neumann.RaftWal
@@ -163,12 +163,21 @@ theorem preHigher_tv (n : Node) (s : RState) (t : Nat) (r : Role) (hS : TVSync n
   · exact ⟨trivial, hS⟩
 
 theorem tv_stepdown (n : Node) (s : RState) (t : Nat) (hS : TVSync n s) (ht : t > n.term) :
-    TVStepOk s { micros := [.wal (.termAndVote t none), .ackTerm t],
-                 node := { n with term := t, votedFor := none, role := .follower }, reply := .none } := by
+    TVStepOk s (stepDownOut n t) := by
+  unfold stepDownOut
   have hgt : t > s.term := by rw [← hS.1]; exact ht
   have hs1 := apply_tv_higher s t none hgt
   refine ⟨?_, ?_⟩
   · simp only [AcksOk, hs1]; exact ⟨Nat.le_refl _, trivial⟩
+  · simp only [microAllS, List.foldl_cons, List.foldl_nil, microS, hs1]; exact ⟨rfl, rfl⟩
+
+theorem tv_elect (n : Node) (s : RState) (hS : TVSync n s) : TVStepOk s (electOut n) := by
+  unfold electOut
+  have hgt : n.term + 1 > s.term := by rw [← hS.1]; omega
+  have hs1 := apply_tv_higher s (n.term + 1) (some n.id) hgt
+  refine ⟨?_, ?_⟩
+  · simp only [AcksOk, hs1]
+    exact ⟨Nat.le_refl _, Or.inr ⟨rfl, rfl⟩, trivial⟩
   · simp only [microAllS, List.foldl_cons, List.foldl_nil, microS, hs1]; exact ⟨rfl, rfl⟩
 
 theorem tv_noop (n n' : Node) (s : RState) (rp : Reply) (hS : TVSync n s)
@@ -181,24 +190,43 @@ theorem tv_noop (n n' : Node) (s : RState) (rp : Reply) (hS : TVSync n s)
     would return -/
 theorem tvstep_ok (n : Node) (s : RState) (e : Event) (hS : TVSync n s) : TVStepOk s (step n e) := by
   cases e with
-  | startElection =>
-    simp only [step]
-    have hgt : n.term + 1 > s.term := by rw [← hS.1]; omega
-    have hs1 := apply_tv_higher s (n.term + 1) (some n.id) hgt
-    refine ⟨?_, ?_⟩
-    · simp only [AcksOk, hs1]
-      exact ⟨Nat.le_refl _, Or.inr ⟨rfl, rfl⟩, trivial⟩
-    · simp only [microAllS, List.foldl_cons, List.foldl_nil, microS, hs1]; exact ⟨rfl, rfl⟩
-  | voteResponse t =>
+  | startElection => exact tv_elect n s hS
+  | voteResponse frm t granted =>
     simp only [step]
     split
-    · next h => exact tv_stepdown n s t hS h.2
     · exact tv_noop n n s _ hS rfl rfl
-  | preVoteResponse t b =>
+    · split
+      · next h => exact tv_stepdown n s t hS h
+      · split
+        · split
+          · exact tv_noop n _ s _ hS rfl rfl
+          · exact tv_noop n _ s _ hS rfl rfl
+        · exact tv_noop n n s _ hS rfl rfl
+  | startPreVote =>
+    simp only [step]
+    exact tv_noop n _ s _ hS rfl rfl
+  | preVote t c li lt =>
+    simp only [step]
+    exact ⟨⟨by rw [hS.1]; exact Nat.le_refl _, trivial⟩,
+           by simp only [microAllS, List.foldl_cons, List.foldl_nil, microS]; exact hS⟩
+  | preVoteResponse frm t granted =>
     simp only [step]
     split
-    · next h => exact tv_stepdown n s t hS h.2
     · exact tv_noop n n s _ hS rfl rfl
+    · split
+      · next h => exact tv_stepdown { n with inPreVote := false } s t ⟨hS.1, hS.2⟩ h
+      · split
+        · split
+          · exact tv_elect _ s ⟨hS.1, hS.2⟩
+          · exact tv_noop n _ s _ hS rfl rfl
+        · exact tv_noop n n s _ hS rfl rfl
+  | timeoutNow frm t lid =>
+    simp only [step]
+    split
+    · exact tv_noop n n s _ hS rfl rfl
+    · split
+      · exact tv_noop n n s _ hS rfl rfl
+      · exact tv_elect n s hS
   | appendResponse t =>
     simp only [step]
     split
@@ -316,7 +344,40 @@ theorem tvstep_ok (n : Node) (s : RState) (e : Event) (hS : TVSync n s) : TVStep
 
 /-- a handler whose appends all fail writes nothing, changes neither term nor vote, and only
     repeats acknowledgements of the term it already holds -/
-theorem tvstepFail_ok (n : Node) (s : RState) (e : Event) (hS : TVSync n s) : TVStepOk s (stepFail n e) := by
+theorem tvstepFailOld_ok (n : Node) (s : RState) (e : Event) (hS : TVSync n s) : TVStepOk s (stepFailOld n e) := by
+  have hle : n.term ≤ s.term := by rw [hS.1]; exact Nat.le_refl _
+  cases e with
+  | appendEntries t leader prevIdx prevTerm ents =>
+    simp only [stepFailOld]
+    (repeat' split) <;>
+      exact ⟨by simp only [AcksOk]; exact ⟨hle, trivial⟩,
+             by simp only [microAllS, List.foldl_cons, List.foldl_nil, microS]; exact hS⟩
+  | requestVote t c li lt =>
+    exact ⟨⟨hle, trivial⟩, by simp only [stepFailOld, microAllS, List.foldl_cons, List.foldl_nil, microS]; exact hS⟩
+  | propose c =>
+    simp only [stepFailOld]; split <;> exact tv_noop n n s _ hS rfl rfl
+  | startElection => exact tv_noop n n s _ hS rfl rfl
+  | voteResponse frm t granted =>
+    simp only [stepFailOld]
+    split
+    · exact tv_noop n n s _ hS rfl rfl
+    · exact tvstep_ok n s (.voteResponse frm t granted) hS
+  | startPreVote => exact tvstep_ok n s .startPreVote hS
+  | preVote t c li lt => exact tvstep_ok n s (.preVote t c li lt) hS
+  | preVoteResponse frm t granted =>
+    simp only [stepFailOld]
+    (repeat' split) <;> exact tv_noop n _ s _ hS rfl rfl
+  | timeoutNow frm t lid => exact tv_noop n n s _ hS rfl rfl
+  | becomeLeader => exact tv_noop n _ s _ hS rfl rfl
+  | appendResponse t => exact tv_noop n n s _ hS rfl rfl
+  | installSnapshot a b c => exact tv_noop n n s _ hS rfl rfl
+
+theorem stepFail_eq (n : Node) (e : Event) (h : ∀ t l pi pt es, e ≠ .appendEntries t l pi pt es) :
+    stepFail n e = stepFailOld n e := by
+  cases e <;> first | rfl | exact absurd rfl (h _ _ _ _ _)
+
+theorem tvstepFail_ok (n : Node) (s : RState) (e : Event) (hS : TVSync n s) :
+    TVStepOk s (stepFail n e) := by
   have hle : n.term ≤ s.term := by rw [hS.1]; exact Nat.le_refl _
   cases e with
   | appendEntries t leader prevIdx prevTerm ents =>
@@ -324,34 +385,7 @@ theorem tvstepFail_ok (n : Node) (s : RState) (e : Event) (hS : TVSync n s) : TV
     (repeat' split) <;>
       exact ⟨by simp only [AcksOk]; exact ⟨hle, trivial⟩,
              by simp only [microAllS, List.foldl_cons, List.foldl_nil, microS]; exact hS⟩
-  | requestVote t c li lt =>
-    exact ⟨⟨hle, trivial⟩, by simp only [stepFail, microAllS, List.foldl_cons, List.foldl_nil, microS]; exact hS⟩
-  | propose c =>
-    simp only [stepFail]; split <;> exact tv_noop n n s _ hS rfl rfl
-  | startElection => exact tv_noop n n s _ hS rfl rfl
-  | voteResponse t => exact tv_noop n n s _ hS rfl rfl
-  | preVoteResponse t b => exact tv_noop n n s _ hS rfl rfl
-  | becomeLeader => exact tv_noop n _ s _ hS rfl rfl
-  | appendResponse t => exact tv_noop n n s _ hS rfl rfl
-  | installSnapshot a b c => exact tv_noop n n s _ hS rfl rfl
-
-theorem tvstepFailFixed_ok (n : Node) (s : RState) (e : Event) (hS : TVSync n s) :
-    TVStepOk s (stepFailFixed n e) := by
-  have hle : n.term ≤ s.term := by rw [hS.1]; exact Nat.le_refl _
-  cases e with
-  | appendEntries t leader prevIdx prevTerm ents =>
-    simp only [stepFailFixed]
-    (repeat' split) <;>
-      exact ⟨by simp only [AcksOk]; exact ⟨hle, trivial⟩,
-             by simp only [microAllS, List.foldl_cons, List.foldl_nil, microS]; exact hS⟩
-  | requestVote t c li lt => exact tvstepFail_ok n s (.requestVote t c li lt) hS
-  | propose c => exact tvstepFail_ok n s (.propose c) hS
-  | startElection => exact tvstepFail_ok n s .startElection hS
-  | voteResponse t => exact tvstepFail_ok n s (.voteResponse t) hS
-  | preVoteResponse t b => exact tvstepFail_ok n s (.preVoteResponse t b) hS
-  | becomeLeader => exact tvstepFail_ok n s .becomeLeader hS
-  | appendResponse t => exact tvstepFail_ok n s (.appendResponse t) hS
-  | installSnapshot a b c => exact tvstepFail_ok n s (.installSnapshot a b c) hS
+  | _ => (rw [stepFail_eq n _ (by intros; simp)]; exact tvstepFailOld_ok n s _ hS)
 
 theorem tvstepM_ok (fixed fail : Bool) (n : Node) (s : RState) (e : Event) (hS : TVSync n s) :
     TVStepOk s (stepM fixed fail n e) := by
@@ -359,8 +393,8 @@ theorem tvstepM_ok (fixed fail : Bool) (n : Node) (s : RState) (e : Event) (hS :
   cases fail <;> cases fixed <;> simp only [Bool.false_eq_true, if_false, if_true]
   · exact tvstep_ok n s e hS
   · exact tvstep_ok n s e hS
+  · exact tvstepFailOld_ok n s e hS
   · exact tvstepFail_ok n s e hS
-  · exact tvstepFailFixed_ok n s e hS
 
 /-- the term/vote invariant of a running (or just restarted) node -/
 def TVInv (σ : Sys) : Prop :=
@@ -397,21 +431,20 @@ theorem tvinv_execF (fixed : Bool) (σ : Sys) (as : List ActF) (h : TVInv σ) : 
 
 /-! ### Part B: one candidate per term -/
 
-theorem stepFail_no_vote (n : Node) (e : Event) (t c : Nat) : Micro.ackVote t c ∉ (stepFail n e).micros := by
-  cases e <;> simp only [stepFail] <;> (repeat' split) <;> simp
-
-theorem stepFailFixed_no_vote (n : Node) (e : Event) (t c : Nat) :
-    Micro.ackVote t c ∉ (stepFailFixed n e).micros := by
+theorem stepFailOld_no_vote (n : Node) (e : Event) (t c : Nat) : Micro.ackVote t c ∉ (stepFailOld n e).micros := by
   cases e with
-  | appendEntries t' l pi pt es => simp only [stepFailFixed]; (repeat' split) <;> simp
-  | requestVote a b c' d => exact stepFail_no_vote n _ t c
-  | propose c' => exact stepFail_no_vote n _ t c
-  | startElection => exact stepFail_no_vote n _ t c
-  | voteResponse t' => exact stepFail_no_vote n _ t c
-  | preVoteResponse t' b => exact stepFail_no_vote n _ t c
-  | becomeLeader => exact stepFail_no_vote n _ t c
-  | appendResponse t' => exact stepFail_no_vote n _ t c
-  | installSnapshot a b c' => exact stepFail_no_vote n _ t c
+  | voteResponse frm t' granted =>
+    simp only [stepFailOld, step]
+    (repeat' split) <;> first | exact stepDownOut_no_vote _ _ _ _ | simp
+  | startPreVote => simp [stepFailOld, step]
+  | preVote a b c' d => simp [stepFailOld, step]
+  | _ => simp only [stepFailOld] <;> (repeat' split) <;> simp
+
+theorem stepFail_no_vote (n : Node) (e : Event) (t c : Nat) :
+    Micro.ackVote t c ∉ (stepFail n e).micros := by
+  cases e with
+  | appendEntries t' l pi pt es => simp only [stepFail]; (repeat' split) <;> simp
+  | _ => (rw [stepFail_eq n _ (by intros; simp)]; exact stepFailOld_no_vote n _ t c)
 
 theorem stepM_votes (fixed fail : Bool) (n : Node) (e : Event) (t c : Nat)
     (h : Micro.ackVote t c ∈ (stepM fixed fail n e).micros) :
@@ -420,8 +453,8 @@ theorem stepM_votes (fixed fail : Bool) (n : Node) (e : Event) (t c : Nat)
   cases fail <;> cases fixed <;> simp only [Bool.false_eq_true, if_false, if_true] at h ⊢
   · exact step_votes n e t c h
   · exact step_votes n e t c h
+  · exact absurd h (stepFailOld_no_vote n e t c)
   · exact absurd h (stepFail_no_vote n e t c)
-  · exact absurd h (stepFailFixed_no_vote n e t c)
 
 theorem votesFn_applyOut (σ : Sys) (o : StepOut) (h : TVInv σ) (ho : TVStepOk (fromEntries σ.dur) o)
     (hvotes : ∀ t c, Micro.ackVote t c ∈ o.micros → o.node.term = t ∧ o.node.votedFor = some c)
@@ -483,8 +516,8 @@ theorem votesFn_execF (fixed : Bool) (σ : Sys) (as : List ActF) (h : TVInv σ) 
 
 /-! ### Part C: the repaired `append_leader_entries` keeps the full invariant -/
 
-theorem stepFailFixed_ok (n : Node) (s : RState) (g : Ghost) (e : Event)
-    (hS : Sync n s) (hwf : WF n.log) (hsat : Sat s g) : StepOk s g (stepFailFixed n e) := by
+theorem stepFail_ok (n : Node) (s : RState) (g : Ghost) (e : Event)
+    (hS : Sync n s) (hwf : WF n.log) (hsat : Sat s g) : StepOk s g (stepFail n e) := by
   have hP := P_of_sync hS hwf hsat
   have hle : n.term ≤ s.term := by rw [hS.1]; exact Nat.le_refl _
   have ackOnly : ∀ n' : Node, n'.term = n.term → n'.votedFor = n.votedFor → n'.log = n.log → ∀ rp,
@@ -495,7 +528,7 @@ theorem stepFailFixed_ok (n : Node) (s : RState) (g : Ghost) (e : Event)
     exact ⟨by rw [h1]; exact hS.1, by rw [h2]; exact hS.2.1, by rw [h3]; exact hS.2.2⟩
   cases e with
   | appendEntries t leader prevIdx prevTerm ents =>
-    simp only [stepFailFixed]
+    simp only [stepFail]
     (repeat' split) <;> first
       | (apply ackOnly <;> rfl)
       | (-- every entry already held: acknowledged from memory = from the WAL
@@ -512,10 +545,19 @@ theorem stepFailFixed_ok (n : Node) (s : RState) (g : Ghost) (e : Event)
            exact ⟨hS.1, hS.2.1, hS.2.2⟩)
   | requestVote t c li lt => exact ackOnly n rfl rfl rfl _
   | propose c =>
-    simp only [stepFailFixed, stepFail]; split <;> exact noop_ok n n s g _ hS hwf hsat rfl rfl rfl
+    simp only [stepFail, stepFailOld]; split <;> exact noop_ok n n s g _ hS hwf hsat rfl rfl rfl
   | startElection => exact noop_ok n n s g _ hS hwf hsat rfl rfl rfl
-  | voteResponse t => exact noop_ok n n s g _ hS hwf hsat rfl rfl rfl
-  | preVoteResponse t b => exact noop_ok n n s g _ hS hwf hsat rfl rfl rfl
+  | voteResponse frm t granted =>
+    simp only [stepFail, stepFailOld]
+    split
+    · exact noop_ok n n s g _ hS hwf hsat rfl rfl rfl
+    · exact step_ok n s g (.voteResponse frm t granted) hS hwf hsat
+  | startPreVote => exact step_ok n s g .startPreVote hS hwf hsat
+  | preVote t c li lt => exact step_ok n s g (.preVote t c li lt) hS hwf hsat
+  | preVoteResponse frm t granted =>
+    simp only [stepFail, stepFailOld]
+    (repeat' split) <;> exact noop_ok n _ s g _ hS hwf hsat rfl rfl rfl
+  | timeoutNow frm t lid => exact noop_ok n n s g _ hS hwf hsat rfl rfl rfl
   | becomeLeader => exact noop_ok n _ s g _ hS hwf hsat rfl rfl rfl
   | appendResponse t => exact noop_ok n n s g _ hS hwf hsat rfl rfl rfl
   | installSnapshot a b c => exact noop_ok n n s g _ hS hwf hsat rfl rfl rfl
@@ -536,7 +578,7 @@ theorem inv_crashOut (σ : Sys) (o : StepOut) (k : Nat) (ho : StepOk (fromEntrie
 theorem inv_execActF_fixed (σ : Sys) (a : ActF) (h : Inv σ) : Inv (execActF true σ a) := by
   obtain ⟨hS, hwf, hsat⟩ := h
   have ok := step_ok σ.node (fromEntries σ.dur) σ.ghost
-  have okF := stepFailFixed_ok σ.node (fromEntries σ.dur) σ.ghost
+  have okF := stepFail_ok σ.node (fromEntries σ.dur) σ.ghost
   cases a with
   | ev e => exact inv_applyOut σ _ (by simpa [stepM] using ok e hS hwf hsat)
   | evFail e => exact inv_applyOut σ _ (by simpa [stepM] using okF e hS hwf hsat)
